@@ -420,6 +420,26 @@ func init() {
 			jb(c, &c01Bytes{Bytes: b, Class: fmt.Sprintf("list:count=%d", cnt), List: true, Txs: cnt})
 		}
 
+		c.Phase("duplicate-outpoints") // several inputs spend the same outpoint, with equal or different recorded previous value / script (the extended format carries them per input)
+		for i := uint64(0); i < 60; i++ {
+			if !c.Case(i) {
+				continue
+			}
+			r := c.Rand(i)
+			s := gen.ShapeN(r, 2+int(i%3), int(i%4), smallOpts)
+			for k := 1; k < len(s.Ins); k++ {
+				s.Ins[k].TxID, s.Ins[k].Vout = s.Ins[0].TxID, s.Ins[0].Vout
+				switch (int(i) + k) % 4 {
+				case 0:
+					s.Ins[k].PrevSats, s.Ins[k].PrevScript, s.Ins[k].PrevScriptNil = s.Ins[0].PrevSats, s.Ins[0].PrevScript, s.Ins[0].PrevScriptNil
+				case 1:
+					s.Ins[k].PrevSats = s.Ins[0].PrevSats + 1
+				case 2:
+					s.Ins[k].PrevScript, s.Ins[k].PrevScriptNil = []byte{}, false
+				}
+			}
+			c01JudgeShape(c, s, "duplicate-outpoints")
+		}
 		c.Phase("lists-announcing-more-than-they-hold") // the data ends exactly on a transaction boundary (or right behind the count) although more transactions are announced
 		{
 			n := uint64(0)
@@ -1111,6 +1131,16 @@ func c01CheckAccepted(c *mon.Ctx, entry string, p c01Parse, cn *c01Canon, raw []
 // Clone. It returns true when the structure went through every comparison.
 func c01JudgeShape(c *mon.Ctx, s *gen.Shape, tag string) bool {
 	ownerEditsDecodedEmpties(c)
+	// some inputs come out of bt.Input's JSON decoder, decoded into an input object that held
+	// another outpoint before (small structures only)
+	if len(s.Ins) <= 8 {
+		for i := range s.Ins {
+			if len(s.Ins[i].TxID) == 32 && (len(s.Ins)+i+len(s.Outs))%3 == 0 && len(s.Ins[i].Unlock) < 4096 {
+				s.Ins[i].ViaJSON = true
+				c.Count("structure:input-decoded-from-JSON-into-a-used-input")
+			}
+		}
+	}
 	if s.Ambiguous() {
 		c.Count("skipped:ambiguous-shape")
 		return false
